@@ -102,6 +102,8 @@ class History:
     def op_open(self, k):
         d = self.docs[k]
         text = model.make_text(self.rng, WORDS)
+        if d.get("last_text") is not None and self.rng.random() < 0.5:
+            text = d["last_text"]  # reopened with exactly the text it had when it was closed
         if d["path"] and self.rng.random() < 0.7:
             self.write_disk(k, text)
         self.trace.append({"op": "didOpen", "doc": k, "text": text})
@@ -161,7 +163,7 @@ class History:
         n = self.server.n_publishes(d["uri"])
         self.server.close(d["uri"], wait=False)
         self.wait(lambda: self.server.n_publishes(d["uri"]) > n)
-        d.update(open=False, flags=set())
+        d.update(open=False, flags=set(), last_text=d["client_text"])
 
     def op_add(self, k, user):
         d = self.docs[k]
@@ -185,7 +187,8 @@ class History:
             self.refresh_from_disk(k)
 
     def op_config(self):
-        new = self.rng.choice([{"linters": {"SpellCheck": False}}, {"linters": {"SpellCheck": True}}, {"dialect": "British"}, {"linters": {"RepeatedWords": False}}, {}])
+        new = self.rng.choice([{"linters": {"SpellCheck": False}}, {"linters": {"SpellCheck": True}}, {"dialect": "British"}, {"linters": {"RepeatedWords": False}}, {},
+                               {"markdown": {"IgnoreLinkTitle": True}}, {"isolateEnglish": True}, {"isolateEnglish": True, "markdown": {"IgnoreLinkTitle": True}}, {"diagnosticSeverity": "warning"}])
         self.trace.append({"op": "didChangeConfiguration", "settings": new})
         self.settings = new
         base = {k: v for k, v in self.server.settings["harper-ls"].items() if k in ("userDictPath", "fileDictPath", "statsPath")}
@@ -200,12 +203,20 @@ class History:
             self.refresh_from_disk(k)
             d = self.docs[k]
             if not (d["path"] and k in self.disk):
-                # the linter is rebuilt with the new configuration even when the file cannot be read,
-                # but with the document's old dictionary: model it as env with new settings
-                uw, fw, _ = d["env"]
-                d["env"] = (uw, fw, repr(sorted(self.settings.items())))
+                # the linter is rebuilt with the new configuration even when the file cannot be read, but
+                # with the document's old dictionary, and the document itself is not re-parsed: settings
+                # that act on parsing (isolateEnglish, markdown) stay as they were for this document
+                uw, fw, old = d["env"]
+                old_settings = dict(eval(old)) if old != "[]" else {}
+                mixed = {kk: vv for kk, vv in self.settings.items() if kk not in ("isolateEnglish", "markdown")}
+                for kk in ("isolateEnglish", "markdown"):
+                    if kk in old_settings:
+                        mixed[kk] = old_settings[kk]
+                d["env"] = (uw, fw, repr(sorted(mixed.items())))
                 if d["env"] == self.env_now(k):
                     d["flags"].discard("disk-reread")
+                else:
+                    d["flags"].add("disk-reread")
 
     def op_delete(self, k):
         d = self.docs[k]
